@@ -61,6 +61,8 @@ var c03Ctx = []string{
 	"{namespace a%NS}\n/** @param x */\n{template .t%TM}\n{call .u}{param c}%P{/param}{/call}\n{/template}\n/** @param c */\n{template .u%TM}\n{$c|noAutoescape}\n{/template}\n",
 	"{namespace a%NS}\n/** @param x */\n{template .t%TM}\n{msg desc=\"d\"}m%Pm{/msg}\n{/template}\n",
 	"{namespace a}\n/** @param x */\n{template .t autoescape=\"false\"}\n{call b.u data=\"all\"/}\n{/template}\n",
+	"{namespace a autoescape=\"false\"}\n/** @param x */\n{template .t}\n{call b.u data=\"all\"/}\n{/template}\n",
+	"{namespace a autoescape=\"true\"}\n/** @param x */\n{template .t}\n{call b.u}{param x: $x /}{/call}\n{/template}\n",
 }
 
 const c03Callee = "{namespace b%NS}\n/** @param x */\n{template .u%TM}\n%P\n{/template}\n"
@@ -97,8 +99,10 @@ func H_decision(ns, tm, dir, ctx int) {
 	d := c03Dirs[dir]
 	p := "{$x" + d.text + "}"
 	var tofu *Tofu
-	if ctx == 4 {
-		tofu = verifMustCompile(c03Ctx[4], c03Subst(c03Callee, c03Modes[ns], c03Modes[tm], p))
+	if ctx >= 4 {
+		// cross-namespace call: the mode is the callee's own (template, else its namespace), whatever
+		// the caller's template (ctx 4) or namespace (ctx 5, 6) says
+		tofu = verifMustCompile(c03Ctx[ctx], c03Subst(c03Callee, c03Modes[ns], c03Modes[tm], p))
 	} else {
 		tofu = verifMustCompile(c03Subst(c03Ctx[ctx], c03Modes[ns], c03Modes[tm], p))
 	}
